@@ -71,6 +71,36 @@ CHECKS.update({
     ),
 })
 
+CHECKS.update({
+    "C03": (
+        "exploration",
+        "grammar-directed property testing: generated documents with every permitted "
+        "spelling, oracle = expected tree computed by the generator from the "
+        "specification's spelling rules",
+        "Thousands of generated documents per parser variant (PVL, ODL, PDS3, ISIS "
+        "strict, ISIS as pvl_validate wires it, default): based integers in every "
+        "radix/sign position, reals, both quote characters, unquoted strings, "
+        "keywords in any case, temporals, nested sets/sequences, units, blocks with "
+        "BEGIN_/plain keywords, optional delimiters and END + junk; the loaded tree "
+        "must equal the generator's expectation exactly (type and value). Sampled.",
+        "Trusted: the spelling tables in vlib/gen_text.py (written from the spec "
+        "extracts under spec/), vlib/normalise.py for folding/zone rules.",
+        "DESIGN.md 4/C03",
+    ),
+    "C04": (
+        "exploration",
+        "metamorphic property testing: two random re-layouts (white space + comments) "
+        "of a generated token list must load to the same module as the canonical layout",
+        "Each generated document is rendered with single blanks and with two "
+        "independent layouts over all seven white-space forms and the dialect's "
+        "comment syntaxes (edge bodies: quotes, delimiters, '/', '*', '#', a '#' "
+        "comment at end of text); all three must load and agree. Sampled.",
+        "Trusted: the required/optional classification of token gaps in "
+        "vlib/gen_text.py; comment bodies never contain a comment delimiter.",
+        "DESIGN.md 4/C04",
+    ),
+})
+
 PENDING = {}   # id -> reason while a check is not built yet
 
 
